@@ -138,6 +138,21 @@ def case(t):
                 f"{kind}:{policy}",
                 f"{ctx0}: rung levels {sorted(rung_set)}; state has extra {extra}, misses {missing}; delivered { {k: sorted(v) for k, v in delivered.items()} }; tail={tail}",
             )
+        # ---- the (features, targets) handed to the GP: one row per observed pair, value unchanged
+        if searcher == "bayesopt" and st.trials_evaluations and any(e.metrics.get("target") for e in st.trials_evaluations):
+            from syne_tune.optimizer.schedulers.searchers.bayesopt.datatypes.tuning_job_state import TuningJobState
+            from syne_tune.optimizer.schedulers.searchers.bayesopt.models.estimator import transform_state_to_data
+
+            st_obs = TuningJobState(hp_ranges=st.hp_ranges, config_for_trial=st.config_for_trial, trials_evaluations=st.trials_evaluations, failed_trials=st.failed_trials)
+            data = transform_state_to_data(st_obs, "target", normalize_targets=False)
+            all_pairs = [(int(e.trial_id), int(r), v) for e in st.trials_evaluations for r, v in e.metrics.get("target", {}).items()]
+            if data.features.shape[0] != len(all_pairs) or data.targets.shape[0] != len(all_pairs):
+                raise Violation("data-rows-differ-from-observations", f"{ctx0}: {data.features.shape[0]} feature rows for {len(all_pairs)} observed pairs; tail={tail}")
+            got_rows = sorted((int(st.hp_ranges.from_ndarray(f)[st.hp_ranges.name_last_pos]), round(float(y), 12)) for f, y in zip(data.features, data.targets[:, 0]))
+            want_rows = sorted((r, round(float(v), 12)) for _, r, v in all_pairs)
+            if got_rows != want_rows:
+                raise Violation("data-rows-differ-from-observations", f"{ctx0}: rows (level, value) {got_rows} but observations {want_rows}; tail={tail}")
+            labels.add("data-rows-checked")
         # ---- pending evaluations
         for p in st.pending_evaluations:
             tid = int(p.trial_id)
@@ -169,6 +184,6 @@ SUBCHECKS = {
         "quick": 4000,
         "thorough": 80000,
         "min_per_shard": 20,
-        "required": ["rungs", "all", "rungs_and_last", "myopic", "restart-without-checkpointing", "failure", "pause+resume", "pending-seen", "hypertune", "bayesopt"],
+        "required": ["data-rows-checked", "rungs", "all", "rungs_and_last", "myopic", "restart-without-checkpointing", "failure", "pause+resume", "pending-seen", "hypertune", "bayesopt"],
     },
 }
